@@ -28,17 +28,23 @@ import (
 
 // Case is one replayable case.
 type Case struct {
-	Kind    string    `json:"kind"` // cid | tu | cidfile | tufile
-	Space   string    `json:"space"`
-	Window  string    `json:"window,omitempty"`
-	Codes   []string  `json:"codes,omitempty"` // hex, for the reader of the replay file
-	Chain   [][]int   `json:"chain,omitempty"` // per level (child first) the alphabet index of every window code; 0 = absent
-	Values  []string  `json:"values,omitempty"`
-	File    *fileSpec `json:"file,omitempty"`
-	Embed   bool      `json:"embed"`
-	WMode   int       `json:"wmode"`
-	Version string    `json:"version,omitempty"`
-	Human   bool      `json:"human"`
+	Kind   string   `json:"kind"` // cid | tu | cidfile | tufile | cidchain | tuchain
+	Space  string   `json:"space,omitempty"`
+	Window string   `json:"window,omitempty"`
+	Codes  []string `json:"codes,omitempty"` // hex, for the reader of the replay file
+	Chain  [][]int  `json:"chain,omitempty"` // per level (child first) the alphabet index of every window code; 0 = absent
+	Values []string `json:"values,omitempty"`
+	// cidchain | tuchain (chains.go): per level (child first) the key of the
+	// code space the file declares; Chain holds per level the alphabet index of
+	// every code of that level's window
+	Spaces     []string   `json:"spaces,omitempty"`
+	SpaceNames []string   `json:"space_names,omitempty"` // for the reader of the replay file
+	LevelCodes [][]string `json:"level_codes,omitempty"` // hex, for the reader of the replay file
+	File       *fileSpec  `json:"file,omitempty"`
+	Embed      bool       `json:"embed"`
+	WMode      int        `json:"wmode"`
+	Version    string     `json:"version,omitempty"`
+	Human      bool       `json:"human"`
 }
 
 // ---------------------------------------------------------------------------
@@ -435,6 +441,9 @@ type runner struct {
 	shapes *seenSet
 
 	pairShapes *seenSet
+
+	chainMenu []*chainSpace
+	chainAsgs map[string]*chainAsg // chains.go: assignments of code spaces to the files of a chain
 }
 
 func (rn *runner) report(f *failure, c Case) {
@@ -619,11 +628,12 @@ func Run(tier string) int {
 		budget = 22 * time.Minute
 	}
 	r := ev.New("C13", tier, "exploration", budget)
-	r.Rule("a case is (code space, window of codes, chain of maps child..grandparent, [file configuration]); every map on the window over the value alphabet (for code->text: the base alphabet, and on the windows and chain configurations listed under tounicode_enlarged_* the enlarged alphabet with the multi-rune family) is built with SetMapping / NewToUnicodeFile and judged in memory against the Go map; the code spaces include the code-length coincidence family (code_length_coincidences_in_windows: windows holding codes of different lengths with equal value, with equal leading bytes up to zero padding, with equal or adjacent last bytes); one execution = one in-memory judgement or one Embed->close->reopen->Extract round trip; distinct non-trivial = distinct (space, window, chain, map) with at least two mapped codes (the range compression has a decision to take) plus distinct hand-built files (rectangular ranges, and the odd-range family: every ordered pair of end points from a grid per code length)")
+	r.Rule("a case is (code space, window of codes, chain of maps child..grandparent, [file configuration]); every map on the window over the value alphabet (for code->text: the base alphabet, and on the windows and chain configurations listed under tounicode_enlarged_* the enlarged alphabet with the multi-rune family) is built with SetMapping / NewToUnicodeFile and judged in memory against the Go map; the code spaces include the code-length coincidence family (code_length_coincidences_in_windows: windows holding codes of different lengths with equal value, with equal leading bytes up to zero padding, with equal or adjacent last bytes); one execution = one in-memory judgement or one Embed->close->reopen->Extract round trip; distinct non-trivial = distinct (space, window, chain, map) with at least two mapped codes (the range compression has a decision to take) plus distinct hand-built files (rectangular ranges, and the odd-range family: every ordered pair of end points from a grid per code length); the chain code space family (chain_code_space_*): every assignment of a code space from a menu (none, 1-byte, 2-byte, 3-byte, mixed 1+2-byte; equal to, inside, containing, overlapping, disjoint from, in prefix conflict with the parent's) to every file of a chain of length 2 (thorough: and 3) x every map of child and parent on a window of codes inside each file's own code space, code->CID chains enumerated with File.Codec() of the chain, distinct non-trivial = distinct (assignment, maps) with an entry in child and parent")
 	r.Assume("reference model: the Go map the CMap was built from; code space equivalence decided by ref.go on the partition induced by all range bounds",
 		"a child cannot unmap a code of its parent: the map of a chain is parent overlaid by child; CID 0 and 'not enumerated' are the same answer when a parent is present",
 		"hand-built files (rectangular ranges, overlaps, notdef entries, short value lists) are judged for lookup/enumeration agreement on codes covered by exactly one entry and for identical behaviour after the round trip; a reference value is demanded only for one-row ranges (consecutive CIDs; one-element bfrange value = last rune incremented)",
-		"odd ranges (several rows with a partial last-byte span, end points in lexicographic but not byte-wise order, first > last): no specification gives them a meaning, so only agreement of enumeration and lookup is demanded, on every code that lies in the extent (rectangle united with numeric interval) of at most one entry, before and after the round trip, and identical behaviour after it; a file the reader refuses because first > last is 'not accepted'")
+		"odd ranges (several rows with a partial last-byte span, end points in lexicographic but not byte-wise order, first > last): no specification gives them a meaning, so only agreement of enumeration and lookup is demanded, on every code that lies in the extent (rectangle united with numeric interval) of at most one entry, before and after the round trip, and identical behaviour after it; a file the reader refuses because first > last is 'not accepted'",
+		"the code space of a parent chain is the union of the code spaces its files declare; a union that is not prefix-free is no code space: File.Codec() may refuse it and only lookups are judged; ToUnicodeFile has no chain codec: code->text chains with different code spaces are enumerated with charcode.NewCodec(union), and GetMapping must hold exactly what Lookup answers")
 	if msg := selfTest(); msg != "" {
 		r.Infra("reference self-test failed: " + msg)
 		return r.Finish()
@@ -636,6 +646,10 @@ func Run(tier string) int {
 	rn := &runner{r: r, spaces: map[string]*space{}, forms: newSeenSet(), shapes: newSeenSet(), pairShapes: newSeenSet()}
 	for _, sp := range spaces {
 		rn.spaces[sp.name] = sp
+	}
+	if err := rn.initChains(); err != nil {
+		r.Infra(err.Error())
+		return r.Finish()
 	}
 	crel := codeRelations(spaces)
 	r.Dim("code_length_coincidences_in_windows", crel)
@@ -665,13 +679,16 @@ func Run(tier string) int {
 		}
 	}
 
-	parts := os.Getenv("VERIF_C13_PARTS") // debugging aid: "cid,tu,files"; a partial run is marked non-exhaustive
+	parts := os.Getenv("VERIF_C13_PARTS") // debugging aid: "cid,tu,files,chains,pairs"; a partial run is marked non-exhaustive
 	if parts != "" {
 		r.Capped("partial run: VERIF_C13_PARTS=" + parts)
 	}
 	if parts == "" || strings.Contains(parts, "files") {
 		rn.runFiles()
 		rn.runOddFiles()
+	}
+	if parts == "" || strings.Contains(parts, "chains") {
+		rn.runChains()
 	}
 	if parts == "" || strings.Contains(parts, "cid") {
 		rn.runCID()
@@ -1004,6 +1021,20 @@ func findWindow(ws []*window, name string) *window {
 
 // replayCase re-executes one case with the same oracle.
 func (rn *runner) replayCase(c Case) bool {
+	if c.Kind == "cidchain" || c.Kind == "tuchain" {
+		ca := rn.chainAsgs[strings.Join(c.Spaces, ",")]
+		if ca == nil || ca.skip != "" {
+			return false
+		}
+		var cfgs []config
+		if c.Embed {
+			cfgs = []config{{c.WMode, versionOf(c.Version), c.Human}}
+		}
+		if c.Kind == "cidchain" {
+			return rn.cidChainCase(ca, c.Chain, func(*cmap.File) []config { return cfgs })
+		}
+		return rn.tuChainCase(ca, c.Chain, func(*cmap.ToUnicodeFile) []config { return cfgs })
+	}
 	sp := rn.spaces[c.Space]
 	if sp == nil {
 		return false
@@ -1053,6 +1084,10 @@ func Replay(path string) int {
 	rn := &runner{r: r, spaces: map[string]*space{}, forms: newSeenSet(), shapes: newSeenSet(), pairShapes: newSeenSet()}
 	for _, sp := range spaces {
 		rn.spaces[sp.name] = sp
+	}
+	if err := rn.initChains(); err != nil {
+		r.Infra(err.Error())
+		return r.Finish()
 	}
 	if !rn.replayCase(c) {
 		fmt.Println("replay: case not understood")
